@@ -6,7 +6,7 @@ use crate::tape::{good_block, tap_bytes};
 use crate::util::*;
 use rustzx_core::host::{Screen, Snapshot, Tape};
 use rustzx_core::poke::{Poke, PokeAction};
-use serde_json::json;
+use serde_json::{json, Value};
 use std::time::Duration;
 
 struct VecPoke(Vec<PokeAction>);
@@ -250,6 +250,58 @@ pub fn run(args: &Args) {
             // one path per round is watched over a whole flash period
             let n = if pi as u64 == round % paths.len() as u64 { long } else { frames };
             run_frames(&mut emu, &mut out, n, if n > 8 { 5 } else { 1 });
+
+            // writes that do not touch the visible display file (beyond it in the same bank, other banks, the other
+            // screen bank, addresses that share low address bits with display bytes) must leave the picture alone.
+            // The spec decides through the memory map which of them, if any, reach the visible bytes.
+            {
+                let keep = if shadow { 8u8 } else { 0 };
+                poke_bytes(&mut emu, 0x8010, &[0xED, 0x79, 0x77]);
+                let mut ws: Vec<Value> = vec![];
+                let method = ["poke", "cpu", "bus"][(pi + round as usize) % 3];
+                let banks_c000: Vec<u8> = if m128 { vec![0, 1, 3, 4, 6, if shadow { 5 } else { 7 }, 2] } else { vec![0] };
+                for (bi, bankc) in banks_c000.iter().enumerate() {
+                    if m128 {
+                        cpu_out(&mut emu, 0x7FFD, bankc | keep);
+                    }
+                    let mut addrs: Vec<u16> = vec![];
+                    for _ in 0..6 {
+                        let o = r.below(6912) as u16;
+                        addrs.push(0xC000 + o); // a non-visible bank at the same offsets as the picture
+                        addrs.push(0xC000 + 0x2000 + (o % 0x1B00)); // same low 13 address bits
+                        if bi == 0 {
+                            if shadow {
+                                addrs.push(0x4000 + o); // the screen bank that is not displayed
+                            }
+                            addrs.push(0x8000 + o);
+                            addrs.push(0x4000 + 0x2000 + o % 0x1B00); // bank 5 beyond the display file, low 13 bits of a display byte
+                            addrs.push(0x5B00 + r.below(0x2500) as u16);
+                        }
+                    }
+                    // bank 5 or 7 at 0xC000 while it is the visible one is left out: that is a write to the picture
+                    for a in addrs {
+                        if (a >= 0x8000 && a < 0x8040) || (*bankc == 2 && (a & 0x3FFF) < 0x40) || (a & 0x3FFF) >= 0x3FE0 {
+                            continue; // the harness' own code and stack
+                        }
+                        if (0x4000..0x5B00).contains(&a) && !shadow {
+                            continue;
+                        }
+                        let v = !emu.peek(a) ^ 0x21;
+                        match method {
+                            "poke" => emu.execute_poke(VecPoke(vec![PokeAction::mem(a, v)])),
+                            "cpu" => cpu_write(&mut emu, a, v),
+                            _ => emu.verif_bus_write(a, v),
+                        }
+                        ws.push(json!([bankc, a, v]));
+                    }
+                }
+                if m128 {
+                    cpu_out(&mut emu, 0x7FFD, keep);
+                }
+                idle(&mut emu);
+                out.ev(json!({"ev":"writes","method":method,"shadow":shadow,"ws":ws}));
+                run_frames(&mut emu, &mut out, 2, 1);
+            }
 
             // beam-relative writes
             if beam > 0 && pi < 4 {
